@@ -12,6 +12,9 @@ terminator), so the real `run_phase`, `generic_handler`, `IpcCommand.__call__`, 
     injected failures (several errnos) of the os-level primitives copyfile/mkdir/chmod/chown/symlink; the replies are decoded
     by the real bash functions `__ebd_read_array` (ebuild-daemon-lib.bash) and compared with what is on disk (existence,
     content, requested mode);
+  * parse-failure sessions: for EVERY helper class of ebd_ipc (introspection), requests its declared argparse interface cannot
+    accept (unknown internal option, unknown flag, surplus positional arguments, no arguments), fatal and nonfatal, on one set of
+    long-lived helper objects; one failure reply each, nothing done in the image, nonfatal ones followed by a served dodir;
   * directory-creation sessions: dodir/keepdir requests for 1-3 directories each of which is fresh, already there, blocked
     by a regular file (at the leaf or at a parent) or hit by a failing mkdir/chmod; reply compared with the Lean model of
     `_install_dirs` (`installDirsPy`) and with the directories on disk.
@@ -69,7 +72,9 @@ RULE = ("request streams of 1-6 requests; probe sessions: outcomes None/int/str/
         "existing/missing sources, options handled in Python, options forcing the `install` fallback (valid and invalid for "
         "install), a regular file in the image where a directory is needed, injected ENOSPC/EACCES/EROFS/EIO/EDQUOT in "
         "copyfile/mkdir/chmod/chown/symlink; directory-creation sessions (1-3 directories, each fresh/existing/blocked at leaf or "
-        "parent/failing mkdir/failing chmod, with and without diroptions); non-trivial = the session contains a failing request or "
+        "parent/failing mkdir/failing chmod, with and without diroptions); parse-failure sessions for every helper class (unknown "
+        "internal option / unknown flag / surplus arguments / no arguments, fatal and nonfatal); probe bodies also raise the "
+        "module's IpcCommandError subclasses; non-trivial = the session contains a failing request or "
         "a fallback to `install`; distinct by request stream")
 LEVEL_TEXT = ("Kernel-checked Lean 4 theorems, for every request, every behaviour of shlex/chdir/the helper body: exactly one reply line "
               "is written (by __call__ or by run_generic_phase's error path), it contains no line break, its status field reads as "
@@ -120,6 +125,9 @@ def make_probe(ebd_ipc, script):
             what = script.get("\0".join(args), script["__default__"])
             if what == "other":
                 raise RuntimeError("scripted failure")
+            if "cls" in what:
+                # one of the module's own IpcCommandError subclasses, built the way the module builds it
+                raise getattr(ebd_ipc, what["cls"])(list(what["payload"]))
             if "err" in what:
                 raise ebd_ipc.IpcCommandError(what["err"][1], code=what["err"][0])
             r = what["ok"]
@@ -251,7 +259,28 @@ RETS = [None, None, None, 0, 1, 17, -3, "", "cat/pkg-1.2", "two\nlines", "with\x
         [0, "two\nlines"]]
 
 
-def gen_probe_session(rng, idx, workdir):
+def error_subclasses(ebd_ipc):
+    """the module's IpcCommandError subclasses that are built from one list (UnknownOptions, UnknownArguments, ...), by
+    introspection: name -> (code, msg) of an instance built from `payload`"""
+    out, todo = {}, list(ebd_ipc.IpcCommandError.__subclasses__())
+    while todo:
+        c = todo.pop()
+        todo += c.__subclasses__()
+        if c.__module__ == ebd_ipc.__name__:
+            try:
+                c(["probe"])
+            except Exception:  # noqa
+                continue
+            out[c.__name__] = c
+    return out
+
+
+def subclass_outcome(classes, name, payload):
+    e = classes[name](list(payload))
+    return {"err": [e.code, e.msg], "cls": name, "payload": list(payload)}
+
+
+def gen_probe_session(rng, idx, workdir, classes=None):
     script = {"__default__": {"ok": None}}
     lines, reqs = [], []
     k = rng.choice([1, 1, 2, 3, 4, 6])
@@ -267,8 +296,11 @@ def gen_probe_session(rng, idx, workdir):
             out = {"ok": None}       # no arguments: the default outcome of the script
         elif r < 0.4:
             out = {"ok": rng.choice(RETS)}
-        elif r < 0.85:
+        elif r < 0.7 or (r < 0.85 and not classes):
             out = {"err": [rng.choice([1, 1, 1, 2, 64, 127, 255]), rng.choice(MSGS)]}
+        elif r < 0.85:
+            out = subclass_outcome(classes, rng.choice(sorted(classes)),
+                                   [rng.choice(["--bogus", "-z", "extra", "é", "two\nlines", "x y"]) for _ in range(rng.choice([1, 1, 2, 3]))])
         else:
             out = "other"
         argline = "".join(a + "\0" for a in args)
@@ -355,7 +387,15 @@ def _run(ctx, mods, ebd_path, FakePkg, scratch):
     sessions = []
     if ctx.replay_cases:
         sessions += [c for c in ctx.replay_cases if isinstance(c, dict) and c.get("kind") == "probe"]
-    for reqs_, term in PROBE_CORPUS:
+    classes = error_subclasses(ebd_ipc)
+    ctx.extra["error_subclasses"] = sorted(classes)
+    corpus = list(PROBE_CORPUS)
+    for cname in sorted(classes):
+        # the module's own error subclasses (built from one list), raised by a fatal and by a nonfatal request
+        for nf in ("false", "true"):
+            corpus.append(([("probe", nf, "", ["u" + cname], subclass_outcome(classes, cname, ["--bogus", "-z"])),
+                            ("probe", "true", "", ["n"], {"ok": None})], "phases succeeded"))
+    for reqs_, term in corpus:
         script, lines, rq, splits = {"__default__": {"ok": None}}, [], [], {}
         for name, nf, opts, args, out in reqs_:
             argline = "".join(a + "\0" for a in args)
@@ -369,7 +409,7 @@ def _run(ctx, mods, ebd_path, FakePkg, scratch):
         sessions.append({"kind": "probe", "lines": lines + [term], "requests": rq, "script": script, "splits": splits, "badcwds": [],
                          "terminator": term})
     for i in range(ctx.n(500, 8000)):
-        sessions.append(gen_probe_session(rng, i, work))
+        sessions.append(gen_probe_session(rng, i, work, classes))
 
     mreqs, results = [], []
     for s in sessions:
@@ -464,6 +504,9 @@ def _run(ctx, mods, ebd_path, FakePkg, scratch):
     t0 = time.time()
     _dir_creation(ctx, mods, ebd_path, pkg, scratch, rng, sess)
     t["dir_creation"] = round(time.time() - t0, 1)
+    t0 = time.time()
+    _parse_failures(ctx, mods, ebd_path, pkg, scratch, rng, sess)
+    t["parse_failures"] = round(time.time() - t0, 1)
 
 
 def _effective(r, s):
@@ -892,3 +935,151 @@ def _dir_creation(ctx, mods, ebd_path, pkg, scratch, rng, sess):
         elif m_reply != reply:
             ctx.mismatch(case, f"reply {reply!r}, the model of _install_dirs gives {m_reply!r}")
     ctx.extra["dir_creation_cases"] = len(plans)
+
+
+class OpAll(Op):
+    """what the helpers' constructors and argument parsers read from the build operation"""
+
+    def __init__(self, pkg, ed, tmp):
+        super().__init__(pkg, ed)
+        self.env = {"T": tmp, "DISTDIR": tmp, "EPREFIX": "", "ROOT": "/", "EROOT": "/", "SYSROOT": "/", "ESYSROOT": "/", "ED": ed,
+                    "WORKDIR": tmp}
+        self.domain = None
+        self._ipc_helpers = {}
+
+
+def all_helpers(ebd_ipc, op):
+    """one object of every concrete helper class of the module, keyed by its command name (introspection)"""
+    import inspect
+    out = {}
+    for n, cls in sorted(inspect.getmembers(ebd_ipc, inspect.isclass)):
+        if issubclass(cls, ebd_ipc.IpcCommand) and cls is not ebd_ipc.IpcCommand and not n.startswith("_") \
+                and cls.__module__ == ebd_ipc.__name__:
+            h = cls(op)
+            out[n.lower() if not hasattr(cls, "name") else cls.name] = h
+    op._ipc_helpers = out
+    return out
+
+
+def _bad_requests(h, work_files, work):
+    """requests that the helper's own declared interface (its argparse parsers, read by introspection) cannot accept:
+    -> list of (mode, options, args)"""
+    out = []
+    ap = getattr(h, "arg_parser", None)
+    work_files = [os.path.join(work, f) for f in work_files]
+    known_flags = set()
+    positionals = []
+    if ap is not None:
+        for a in ap._actions:
+            known_flags.update(a.option_strings)
+            if not a.option_strings:
+                positionals.append(a)
+    flag = next(f for f in ("-Z", "-Q", "-J", "--c32-no-such-flag") if f not in known_flags)
+    open_ended = any(a.nargs in ("+", "*") for a in positionals)
+    fixed = sum(a.nargs if isinstance(a.nargs, int) else 1 for a in positionals if a.nargs not in ("+", "*", "?"))
+    def value_for(a, i):
+        # a value the positional's declared type accepts (an existing file, an atom, ...), so that only the extra is wrong
+        for cand in [work_files[i % len(work_files)], "dev-libs/c32"]:
+            try:
+                if a.type is not None:
+                    a.type(cand)
+                return cand
+            except Exception:  # noqa
+                continue
+        return work_files[0]
+    good = []
+    for a in positionals:
+        good += [value_for(a, len(good) + k) for k in range(a.nargs if isinstance(a.nargs, int) else 1)]
+    if hasattr(h, "parser"):
+        # an internal option the helper does not have
+        out.append(("unknown-option", '--dest="/pf" --c32-no-such-option=1', good))
+        out.append(("unknown-option-only", "--c32-no-such-option", good))
+    if ap is not None and h.name != "eapply":       # eapply hands leading dash options on to patch(1): not its own interface
+        # free-form target lists (dodir, docompress, ...) take any word, also one that looks like a flag
+        if all(a.type is not None for a in positionals if a.nargs in ("+", "*")):
+            out.append(("unknown-flag", "", [flag] + good))
+        if not open_ended:
+            out.append(("surplus-argument", "", good + ["surplus"]))
+            out.append(("surplus-arguments", "", good + ["surplus", "é more"]))
+        if positionals:
+            out.append(("no-arguments", "", []))
+    return out
+
+
+def _parse_failures(ctx, mods, ebd_path, pkg, scratch, rng, sess):
+    """for EVERY helper of the module: requests that fail in option/argument parsing (unknown internal option, unknown flag,
+    surplus positional arguments, no arguments), nonfatal and fatal, on one set of long-lived helper objects; after a nonfatal
+    one a valid dodir follows.  Each must get exactly one single-line reply that reads as failure; the nonfatal ones let the
+    session go on (and the dodir is done and answered 0), the fatal ones fail the build."""
+    processor, ebd_mod, ebd_ipc = mods
+    ed = os.path.join(scratch, "image-pf") + "/"
+    work = os.path.join(scratch, "pfwork")
+    os.makedirs(ed)
+    os.makedirs(work)
+    files = ["pf1", "pf2"]
+    for n in files:
+        open(os.path.join(work, n), "w").write("content of " + n)
+    handlers = all_helpers(ebd_ipc, OpAll(pkg, ed, work))
+    ctx.extra["helpers_with_parse_failure_requests"] = sorted(handlers)
+    plans = []
+    for name in sorted(handlers):
+        for mode, opts, args in _bad_requests(handlers[name], files, work):
+            plans.append((name, mode, opts, args))
+    records, streams = [], []
+    thorough = ctx.n(0, 1)
+    for pi, (name, mode, opts, args) in enumerate(plans):
+        nfs = ["false", "true"] if (thorough or mode in ("unknown-option", "unknown-flag", "surplus-argument")
+                                    or rng.random() < 0.3) else [rng.choice(["false", "true"])]
+        for nonfatal in nfs:
+            d = f"/pf{pi}_{nonfatal}/dir"
+            lines = [name, nonfatal, work, "install", opts, "".join(a + "\0" for a in args),
+                     "dodir", "true", work, "install", "", d + "\0", "phases succeeded"]
+            before = _tree(ed)
+            end, replies, left, exc = sess.run(pkg, handlers, lines)
+            after = _tree(ed)
+            case = {"kind": "parse-failure", "helper": name, "mode": mode, "nonfatal": nonfatal, "options": opts, "args": args,
+                    "lines": lines, "note": "one object per helper serves all cases of the run, in order"}
+            ctx.case(case, True, key=repr((name, mode, nonfatal)))
+            ctx.count("parsefail_" + mode)
+            ctx.count("parsefail_helper_" + name)
+            if replies is None:
+                ctx.mismatch(case, "run_generic_phase never reached start_processing")
+                continue
+            new = sorted(after - before)
+            want_new = [ed + d.lstrip("/")] if nonfatal == "true" else []
+            new_leaves = [p_ for p_ in new if not any(q.startswith(p_ + "/") for q in new)]
+            text = replies.decode("utf-8", "surrogateescape")
+            reply_lines = text.split("\n")
+            n_want = 2 if nonfatal == "true" else 1
+            info = f"session ended with {end!r} ({type(exc).__name__}: {str(exc)[:100]})"
+            if reply_lines[-1] != "" or len(reply_lines) - 1 != n_want:
+                ctx.violation(case, f"{n_want} request(s) had to be answered (the first one is not acceptable to {name}: {mode}) but the "
+                                    f"reply stream is {reply_lines!r}; {info}")
+                continue
+            if new_leaves != want_new:
+                ctx.violation(case, f"the image gained {new_leaves!r}, expected {want_new!r} (the rejected request must do nothing, "
+                                    f"the dodir after a nonfatal failure must be done); replies {reply_lines!r}; {info}")
+                continue
+            want_end = {"finished": True} if nonfatal == "true" else "buildFailed"
+            if end != want_end:
+                ctx.violation(case, f"the session should end with {want_end!r}; {info}; replies {reply_lines!r}")
+                continue
+            records.append((case, n_want))
+            streams.append((replies + b"SENTINEL\n", n_want))
+    for (case, n_want), (rs, rest, eof) in zip(records, bash_decode(ebd_path, streams)):
+        if eof or rest != b"SENTINEL\n" or len(rs) != n_want:
+            ctx.violation(case, f"after one `read` per request bash is left with {rest[:80]!r} instead of the next message")
+            continue
+        got = [st == b"0" for _, st in rs]
+        want = [False, True][:n_want]
+        if got != want:
+            ctx.violation(case, f"reply statuses read by bash {[st for _, st in rs]} say success={got}, the truth is {want}")
+    ctx.extra["parse_failure_cases"] = len(records)
+
+
+def _tree(root):
+    out = set()
+    for dp, dns, fns in os.walk(root):
+        for n in dns + fns:
+            out.add(os.path.join(dp, n))
+    return out
